@@ -204,6 +204,8 @@ type Exec struct {
 	Sched                                int  // scheduling policy (see pick)
 	yield                                bool // policy 2: re-pick after every completed channel operation
 	SkipReach                            bool // termination-only cases: Reach points are recorded without a satisfiability query
+	ZeroDen                              int  // zero-denominator exploration budget (see fltBinop QUO)
+	zeroDenUsed                          int
 	MergeBudget                          int
 	SkipInits                            bool
 	inInit                               bool
